@@ -57,6 +57,53 @@ def run_and_judge(ctx, jobs, own_prefixes, nontrivial_fn, known_key_fn=None, sea
             "sample": {"program": distinct[0]["program"], "events": distinct[0]["events"][:16]} if distinct else None}
 
 
+# which design of spec/ChanLife.tla the tree under test implements ("1": a sendonly channel announces its close)
+CHANLIFE_FIXED = "0"
+
+
+def chanlife_part(ctx, own_prefixes, depth, known_key_fn=None):
+    """spec -> code: every maximal sequential behaviour of spec/ChanLife.tla with <= depth operations (enumerated by TLC) is replayed on
+    the real gateway pair in the simulator; the abstract state of both ends is projected after every operation and TLC compares it with
+    the model's state (spec/ChanLifeCases.tla)."""
+    from mbt import batch, tlc
+
+    for cfg, must_hold in (("CL", True), ("CL_unfixed", False)):
+        r = tlc.run("MCChanLife", cfg + ".cfg", scratch=ctx.scratch, timeout=900, parse_trace=False)
+        if must_hold and not r.ok:
+            ctx.machinery(f"TLC MCChanLife/{cfg}: {r.violated} {r.error[:400]}")
+        if not must_hold and (not r.violated or r.violated == "error"):
+            ctx.machinery("TLC: the design without the close announcement from the sendonly state is not rejected (ChanLife vacuous)")
+        if must_hold:
+            ctx.note(f"TLC ChanLife: {r.distinct} states: no table entry left, endmarker exactly once, nothing after it")
+            states = r.distinct
+    r = tlc.run("ChanLifeCases", "Batch.cfg", scratch=ctx.scratch, env={"WHAT": "enum", "DEPTH": str(depth), "FIXED": CHANLIFE_FIXED}, workers=1, timeout=1800)
+    vals = tlc.printed_values(r.out, "words")
+    if not vals or not vals[0]:
+        ctx.machinery("ChanLifeCases enumerated no operation sequences:\n" + r.out[-1500:])
+    words = sorted(vals[0], key=lambda w: (len(w), repr(w)))
+    allw = set(words)
+    prefixes = {w[:i] for w in allw for i in range(len(w))}
+    maximal = [w for w in words if w and w not in prefixes]
+    res = gwrun.run_chanlife([[list(o) for o in w] for w in maximal])
+    for x in res:
+        if "harness_error" in x or x.get("error") or len(x.get("obs", [])) != len(x["ops"]):
+            ctx.machinery(f"ChanLife replay failed on {x['ops']}: {x.get('harness_error') or x.get('error') or x.get('outcome')}")
+    verdicts = batch.judge("ChanLifeCases", [{"ops": x["ops"], "obs": x["obs"]} for x in res], ctx.scratch, extra_env={"WHAT": "judge", "DEPTH": "0", "FIXED": CHANLIFE_FIXED})
+    hist = {}
+    for x, vd in zip(res, verdicts):
+        hist[vd] = hist.get(vd, 0) + 1
+        if vd == "ok":
+            continue
+        if vd.startswith("MODEL."):
+            ctx.machinery(f"ChanLife replay: {vd} on {x['ops']}")
+        if not any(vd.startswith(p) for p in own_prefixes):
+            continue
+        ctx.violation(f"{vd}: operations {x['ops']} (each followed by quiescence); observed {json.dumps(x['obs'])[:500]}", x,
+                      key=known_key_fn(x, vd) if known_key_fn else None)
+    return {"model_states": states, "sequences_enumerated": len(words), "maximal_sequences_replayed": len(maximal), "depth": depth,
+            "steps_compared": sum(len(x["ops"]) for x in res), "verdict_histogram": hist}
+
+
 def has(evs, **kw):
     return any(all(e.get(k) == v for k, v in kw.items()) for e in evs)
 
